@@ -181,6 +181,17 @@ def step (flog : Nat → Nat) (s : Plan) : Plan :=
   else if !s.gvcfs.isEmpty then stepGvcfs flog s
   else stepVdses flog s
 
+/-- `_gvcf_merge_task_limit` -/
+def mergeTaskLimit : Nat := 150000
+
+/-- the public `gvcf_batch_size` setter: `if value * len(intervals) > limit: value = limit // len(intervals)`
+(`nIv` = `len(self._gvcf_import_intervals)`; the constructor does *not* go through it, it writes `_gvcf_batch_size`) -/
+def clampBatch (nIv value : Nat) : Nat :=
+  if value * nIv > mergeTaskLimit then mergeTaskLimit / nIv else value
+
+/-- `combiner.gvcf_batch_size = value` -/
+def setBatch (nIv value : Nat) (s : Plan) : Plan := { s with batch := clampBatch nIv value }
+
 /-- stable insertion by descending bin: after every entry whose bin is `≥` -/
 def insertDesc (x : Nat × DS) : List (Nat × DS) → List (Nat × DS)
   | [] => [x]
